@@ -1,6 +1,6 @@
 (** Non-vacuity for C12: readers satisfying the hypotheses, and concrete runs of the model. *)
 From Coq Require Import NArith List Lia.
-From FF Require Import Lib.Word Gen.Consts_device_acpi_aml Aml.Stream Aml.Lex Aml.LexProofs Aml.Tree Aml.TreeSpec Aml.Parser Aml.ParserProofs Aml.ParserProofsTop Aml.ParserTotalBase Aml.ParserTotalFirst Aml.ParserTotalConn Aml.ParserTotalTop Aml.ParserTotalNonNamed Aml.ParserTotalCalls Aml.ParserTotalReloc Aml.ParserTotalMerge Aml.ParserTotalResolve.
+From FF Require Import Lib.Word Gen.Consts_device_acpi_aml Aml.Stream Aml.Lex Aml.LexProofs Aml.Tree Aml.TreeSpec Aml.Parser Aml.ParserProofs Aml.ParserProofsTop Aml.ParserTotalBase Aml.ParserTotalFirst Aml.ParserTotalConn Aml.ParserTotalTop Aml.ParserTotalNonNamed Aml.ParserTotalCalls Aml.ParserTotalReloc Aml.ParserTotalMerge Aml.ParserTotalResolve Aml.ParserTotalLex Aml.ParserTotalTree Aml.ParserTotalDefer Aml.ParserTotalDeferW Aml.ParserTotalDeferV.
 Import ListNotations.
 Local Open Scope N_scope.
 
@@ -204,3 +204,39 @@ Proof. vm_compute. reflexivity. Qed.
 Example C12_resolve_loop_runs :
   match resolve_loop 5 10 mex_state with Ok (r, s') => r = ROk /\ p_mergedScopes s' = 1 | _ => False end.
 Proof. vm_compute. split; reflexivity. Qed.
+
+(** the hypotheses of C12_parse_total_partial_nopanic_deferred_block are satisfiable by the initial state of the table
+    While (Zero) { } over a pool that holds the root and the While object the first pass left behind (no children yet), and on
+    that state the block is parsed: result ok, the pool now holds four objects (root, While, the Zero predicate, the body) *)
+Example C12_deferred_block_nonvacuous :
+  exists (s : pstate) (g : ghost) (obj : N) (oo : Obj) (op fl af : N),
+    R (p_tree s) g /\
+    (forall i o, TreeSpec.get (p_tree s) i = Some o -> o_opcode o <> opFreed -> opInfo (o_infoIndex o) <> None) /\
+    rok (p_r s) /\ Forall (glive g) (p_scopeStack s) /\ Inv (p_tables s) s /\
+    glive g 0 /\ glive g obj /\
+    TreeSpec.get (p_tree s) obj = Some oo /\ opInfo (o_infoIndex oo) = Some (op, fl, af) /\
+    hasFlag fl aml_pOpFlagDeferParsing = true /\ o_tableHandle oo = p_handle s /\
+    (has_fl af -> has_parent g obj) /\ TM NoX s g /\
+    lp s + 8 * r_len (p_r s) + 7 <= InvalidIndex /\
+    match parseDeferredBlocks 5 400 obj s with Ok (res, s') => res = ROk /\ lp s' = 4 | _ => False end.
+Proof. exact deferred_hyps_example. Qed.
+
+(** the hypotheses of C12_parse_total_partial_nopanic_deferred_walk are satisfiable by the same state, walking from the root:
+    the walk meets one pending object (the While), parses it and returns ok with four objects in the pool *)
+Example C12_deferred_walk_nonvacuous :
+  exists (s : pstate) (g : ghost) (n : N),
+    R (p_tree s) g /\
+    (forall i o, TreeSpec.get (p_tree s) i = Some o -> o_opcode o <> opFreed -> opInfo (o_infoIndex o) <> None) /\
+    rok (p_r s) /\ Forall (glive g) (p_scopeStack s) /\ Inv (p_tables s) s /\
+    glive g 0 /\ TM NoX s g /\ dcnt s g 0 n /\
+    lp s + n * (8 * r_len (p_r s) + 3) + 4 <= InvalidIndex /\
+    match parseDeferredBlocks 6 400 0 s with Ok (res, s') => res = ROk /\ lp s' = 4 | _ => False end.
+Proof. exact walk_hyps_example. Qed.
+
+(** a table with a While loop, a Buffer with a computed size, a BankField with its field list, a method and calls of it inside
+    the deferred blocks parses (all passes) *)
+Example C12_deferred_runs :
+  fst (fst (load [[0x14; 0x08; 0x4d; 0x54; 0x48; 0x30; 0x01; 0xa4; 0x68;
+                   0x08; 0x42; 0x55; 0x46; 0x30; 0x11; 0x05; 0x0a; 0x02; 0xaa; 0xbb;
+                   0x14; 0x14; 0x4d; 0x54; 0x48; 0x31; 0x00; 0xa2; 0x0d; 0x4d; 0x54; 0x48; 0x30; 0x01; 0x70; 0x4d; 0x54; 0x48; 0x30; 0x00; 0x60]])) = 0.
+Proof. vm_compute. reflexivity. Qed.
